@@ -26,6 +26,27 @@ CLAIMED = {
         "Trusted: reference framer/deframer and reassembler in harness/refcodec (written from IEEE 1815), the simulated phys seam (H2). transport::real is only compiled in non-test builds, so it runs here through the shadow manifest.",
         "DESIGN.md section 6 C08",
     ),
+    "C03": (
+        "S-OUT",
+        "deterministic simulation: seeded search over histories of updates (incl. lock-point injection), polls, confirms, timeouts, unsolicited series and reconnects against the real outstation; oracle = independent event ledger fed by UpdateInfo ids and a reference decoder",
+        "Seeded exploration (not exhaustive): every event the real outstation creates is entered in a ledger with the id returned by update2(); every transmitted fragment is decoded by the reference decoder and its event objects matched to live ledger entries (exact index/value/flags/time through the variation), order oldest-first within and across fragments, no older live event of the same type+class skipped, complete class polls carry all live events of the class; event_cleared() callbacks must equal exactly the events carried by the response whose CONFIRM (right sequence, right UNS bit) was sent in that step; end_confirm counts must equal the ledger; overflow discards must name the oldest live event of the type. Right level: the property quantifies over interleavings and fault sequences; histories of 5..40 operations are sampled at ~40k/s.",
+        "Trusted: reference decoder and size table (harness/refcodec/app.rs), UpdateInfo ids as reported by the library (cross-checked for uniqueness, capacity and oldest-first discard), simulated phys (H2), lock-point hook (H4), tokio paused clock. Values are restricted to ones every variation carries exactly (projection of narrower variations is C10's subject). Liveness (a timely correct CONFIRM must release) is checked only as 'confirmed events not released'.",
+        "DESIGN.md section 6 C03",
+    ),
+    "C05": (
+        "S-OUT",
+        "deterministic simulation: seeded search over (function, session state, interleaved changes) with the dup-msg fault (byte-identical re-delivery) against the real outstation; oracle = callback ledger + byte comparison with what was transmitted before",
+        "Seeded exploration (not exhaustive): every function the outstation executes is sent and re-sent 1..3 times from idle, during the confirm wait of fragment 1,2,.. of a multi-fragment series and during an unsolicited confirm wait, with database/application-IIN changes in between and withheld confirms provoking unsolicited retries; the oracle demands zero additional mutating callbacks, a reply byte-identical to the first reply, and that every echo/retry equals a fragment already transmitted in the session.",
+        "Trusted: recording stubs for ControlHandler/OutstationApplication, simulated phys (H2), tokio paused clock. Exemption written into the property: a READ repeated from idle may get a fresh response. 'The request processed last' is taken as the last non-CONFIRM fragment addressed to the outstation by the configured master.",
+        "DESIGN.md section 6 C05",
+    ),
+    "C13": (
+        "S-OUT",
+        "deterministic simulation: seeded search over update/poll/unsolicited/overflow/broadcast/restart-write/reconnect histories with user transactions injected at database lock points; oracle = IIN model evaluated at each response's own get_events_info lock point using a world-wide event order",
+        "Seeded exploration (not exhaustive): for every newly formatted response (identified by the get_events_info lock point that precedes its transmission; re-sends excluded) the class 1/2/3 and overflow bits are compared with the ledger state at that lock point (events carried by this response or by an unsolicited response still awaiting confirmation excluded), the restart bit with a model cleared only by WRITE g80v1[7]=0, the broadcast bit with 'received and not yet reported / for confirm-mandatory not yet confirmed', and the four application bits with the stub's current answer. Callbacks, lock points, user transactions and transmissions carry a world-wide sequence number so the model is evaluated in the exact order things happened.",
+        "Trusted: ledger + reference decoder, OutstationInformation callbacks for the end of confirm waits and for the moment a broadcast is processed, simulated phys (H2), lock-point hook (H4). Deliberately unknown (not asserted): broadcast indication after a cut/pre-empted connection or a solicited CONFIRM during an unsolicited wait; restart bit of fragments in the step of a broadcast restart-write.",
+        "DESIGN.md section 6 C13",
+    ),
     "C04": (
         "S-OUT",
         "deterministic simulation: seeded search over request histories, virtual-time advances around the select timeout, retransmissions, reconnects/pre-emption and handler answers against the real outstation task; oracle = the property's predicate evaluated on the harness' own record of the history",
@@ -79,7 +100,7 @@ def main():
         },
         "engines": [
             {"name": "S-LINK", "path": "harness/props/c06.rs", "serves_properties": ["C06"], "kind_free_text": "real link reader/parser/formatter over a simulated physical layer; seeded streams, faults and read plans"},
-            {"name": "S-OUT", "path": "harness/sout.rs", "serves_properties": ["C04"], "kind_free_text": "real OutstationTask (session, database, event buffer, real transport/link) run by the real ServerTask over simulated connections; scripted master peer using the reference codec; recording stubs for user callbacks; user transactions injected at database lock points (H4)"},
+            {"name": "S-OUT", "path": "harness/sout.rs", "serves_properties": ["C03", "C04", "C05", "C13"], "kind_free_text": "real OutstationTask (session, database, event buffer, real transport/link) run by the real ServerTask over simulated connections; scripted master peer using the reference codec; recording stubs for user callbacks; user transactions injected at database lock points (H4)"},
             {"name": "S-TRANS", "path": "harness/props/c08.rs", "serves_properties": ["C08"], "kind_free_text": "two real transport writers -> frame-level fault stage -> real transport reader (link layer + assembler) over simulated phys"},
         ],
         "checks": checks,
